@@ -46,6 +46,13 @@ impl LinkNameMatcher {
 
 impl Matcher for LinkNameMatcher {
     fn matches(&self, file_info: &WalkEntry, _: &mut MatcherIO) -> bool {
+        // A link that the follow mode resolves (-L, or -H on a starting
+        // point) is not a symbolic link as far as find's tests go; only a
+        // link that is itself the entry (including a dangling one) has a
+        // target to compare.
+        if !file_info.file_type().is_symlink() {
+            return false;
+        }
         if let Some(target) = read_link_target(file_info) {
             self.pattern.matches(&target.to_string_lossy())
         } else {
